@@ -302,7 +302,9 @@ func (st *prodState) runActor(cl *kgo.Client, client string, ai int, a plan.Acto
 			} else {
 				cl.Produce(ctx, p.rec, st.promise(p))
 			}
+			st.mu.Lock()
 			p.returnSeq = s.Seq()
+			st.mu.Unlock()
 			_ = cancel
 			st.gaugeCheck(cl, "after "+op.Kind)
 		case "sync":
